@@ -121,6 +121,14 @@ def reaches (h : List (List Val)) : Nat → Nat → List Val → Bool
       | .ref j => j == target || reaches h f target (h.getD j [])
       | _ => false)
 
+/-- `value::operator==`: two empty values are equal, otherwise `data::equals` (case sensitive) -/
+def valueEq (h : List (List Val)) (a b : Val) : Bool :=
+  match a, b with
+  | .nil, .nil => true
+  | .nil, _ => false
+  | _, .nil => false
+  | _, _ => valEq h false (h.length + 10000) a b
+
 /-! ### variable helpers -/
 
 /-- set a variable in the innermost frame (following bubbling) that holds it -/
@@ -269,6 +277,7 @@ def nularOp (n : Name) (m : M) : Option OpRes :=
   else if n == n!"nil" then pure' m .nil
   else if n == n!"cansuspend" then pure' m (.bool m.ctx.canSuspend)
   else if n == n!"scriptnull" then pure' m (.script 0)
+  else if n == n!"createhashmap" then let (m', id) := m.allocMap []; pure' m' (.mapref id)
   else if n == n!"currentnamespace" then pure' m (.ns (match m.top? with | some f => f.globals | none => 0))
   else none
 
@@ -289,6 +298,7 @@ def uop_call (r : Val) (m : M) : Option OpRes :=
 def uop_count (r : Val) (m : M) : Option OpRes :=
   match r with
   | .ref id => pure' m (num (m.arr id).length)
+  | .mapref id => pure' m (num (m.map id).length)
   | _ => none
 
 def uop_if (r : Val) (m : M) : Option OpRes :=
@@ -397,6 +407,180 @@ def uop_comment (r : Val) (m : M) : Option OpRes :=
   | .str _ => pure' m .nil
   | _ => none
 
+/-! ### arrays as shared, mutable references (`d_array`, `ops_generic.cpp`) -/
+
+/-- `d_array::copy_deep`: nested arrays are copied, everything else is shared -/
+def copyDeep : Nat → M → List Val → M × Nat
+  | 0, m, xs => m.alloc xs
+  | f + 1, m, xs =>
+    let rec go : List Val → M → List Val → M × List Val
+      | [], mm, acc => (mm, acc.reverse)
+      | v :: vs, mm, acc =>
+        match v with
+        | .ref j =>
+          let (mm', nid) := copyDeep f mm (mm.arr j)
+          go vs mm' (.ref nid :: acc)
+        | _ => go vs mm (v :: acc)
+    let (m', ys) := go xs m []
+    m'.alloc ys
+
+/-- would storing `v` in array `id` make `id` contain itself? (`recursion_test`: follows arrays only) -/
+def wouldCycle (m : M) (id : Nat) (v : Val) : Bool :=
+  match v with
+  | .ref j => j == id || reaches m.heap (m.heap.length + 1) id (m.arr j)
+  | _ => false
+
+def truncInt (d : Dec) : Int := Dec.trunc d
+
+def bop_set (l r : Val) (m : M) : Option OpRes :=
+  match l, r with
+  | .ref id, .ref p =>
+    let ps := m.arr p
+    if ps.length != 2 then pure' (m.log Diag.runtime_ExpectedArraySizeMissmatch) .nil
+    else match nth ps 0 with
+      | .num d =>
+        let idx := truncInt d
+        if idx < 0 then pure' (m.log Diag.runtime_NegativeIndex) .nil
+        else
+          let i := idx.toNat
+          let xs := m.arr id
+          let xs1 := if xs.length ≤ i then xs ++ List.replicate (i + 1 - xs.length) .nil else xs
+          let v := nth ps 1
+          if wouldCycle m id v then
+            -- rolled back to the old element; the growth stays
+            pure' ((m.setArr id xs1).log Diag.runtime_ArrayRecursion) .nil
+          else pure' (m.setArr id (xs1.set i v)) .nil
+      | _ => pure' (m.log Diag.runtime_ExpectedArrayTypeMissmatch) .nil
+  | .mapref id, .ref p =>
+    let ps := m.arr p
+    if ps.length != 2 then pure' (m.log Diag.runtime_ExpectedArraySizeMissmatch) .nil
+    else
+      -- the key is captured by value: an array key is copied
+      let (m1, key) : M × Val := match nth ps 0 with
+        | .ref k => let (mm, nid) := copyDeep (m.heap.length + 1) m (m.arr k); (mm, .ref nid)
+        | k => (m, k)
+      let kv := m1.map id
+      let kv' := if kv.any (fun e => valueEq m1.heap e.1 key) then kv.map (fun e => if valueEq m1.heap e.1 key then (e.1, nth ps 1) else e)
+                 else kv ++ [(key, nth ps 1)]
+      pure' (m1.setMap id kv') .nil
+  | _, _ => none
+
+def bop_pushbackunique (l r : Val) (m : M) : Option OpRes :=
+  match l with
+  | .ref id =>
+    let xs := m.arr id
+    if xs.any (fun x => valueEq m.heap x r) then pure' m (.num (Dec.ofInt (-1)))
+    else if wouldCycle m id r then pure' (m.log Diag.runtime_ArrayRecursion) .nil
+    else pure' (m.setArr id (xs ++ [r])) (num xs.length)
+  | _ => none
+
+def bop_append (l r : Val) (m : M) : Option OpRes :=
+  match l, r with
+  | .ref id, .ref j =>
+    let ys := m.arr j
+    if ys.any (fun v => wouldCycle m id v) then pure' (m.log Diag.runtime_ArrayRecursion) .nil
+    else pure' (m.setArr id (m.arr id ++ ys)) .nil
+  | _, _ => none
+
+def bop_deleteat (l r : Val) (m : M) : Option OpRes :=
+  match l, r with
+  | .ref id, .num d =>
+    let xs := m.arr id
+    let idx := truncInt d
+    if idx ≥ (xs.length : Int) then pure' (m.log Diag.runtime_IndexOutOfRangeWeak) .nil
+    else if idx < 0 then pure' (m.log Diag.runtime_NegativeIndexWeak) .nil
+    else pure' (m.setArr id (xs.eraseIdx idx.toNat)) (nth xs idx.toNat)
+  | .mapref id, k =>
+    let kv := m.map id
+    match kv.find? (fun e => valueEq m.heap e.1 k) with
+    | some e => pure' (m.setMap id (kv.filter (fun e' => !valueEq m.heap e'.1 k))) e.2
+    | none => pure' m .nil
+  | _, _ => none
+
+def bop_resize (l r : Val) (m : M) : Option OpRes :=
+  match l, r with
+  | .ref id, .num d =>
+    let xs := m.arr id
+    let n := (truncInt d).toNat
+    pure' (m.setArr id (if n ≤ xs.length then xs.take n else xs ++ List.replicate (n - xs.length) .nil)) .nil
+  | _, _ => none
+
+def uop_reverse (r : Val) (m : M) : Option OpRes :=
+  match r with
+  | .ref id => pure' (m.setArr id (m.arr id).reverse) .nil
+  | _ => none
+
+def bop_in (l r : Val) (m : M) : Option OpRes :=
+  match r with
+  | .ref id => pure' m (.bool ((m.arr id).any (fun x => valueEq m.heap x l)))
+  | .mapref id => pure' m (.bool ((m.map id).any (fun e => valueEq m.heap e.1 l)))
+  | _ => none
+
+def findIdx (m : M) (xs : List Val) (v : Val) : Nat → Option Nat
+  | i => match xs with
+    | [] => none
+    | x :: rest => if valueEq m.heap x v then some i else findIdx m rest v (i + 1)
+
+def bop_find (l r : Val) (m : M) : Option OpRes :=
+  match l with
+  | .ref id =>
+    match findIdx m (m.arr id) r 0 with
+    | some i => pure' m (num i)
+    | none => pure' m (.num (Dec.ofInt (-1)))
+  | _ => none
+
+def bop_get (l r : Val) (m : M) : Option OpRes :=
+  match l with
+  | .mapref id =>
+    match (m.map id).find? (fun e => valueEq m.heap e.1 r) with
+    | some e => pure' m e.2
+    | none => pure' m .nil
+  | _ => none
+
+def uop_keys (r : Val) (m : M) : Option OpRes :=
+  match r with
+  | .mapref id =>
+    -- keys are handed out by value as well
+    let rec go : List (Val × Val) → M → List Val → M × List Val
+      | [], mm, acc => (mm, acc.reverse)
+      | e :: es, mm, acc =>
+        match e.1 with
+        | .ref k => let (mm', nid) := copyDeep (mm.heap.length + 1) mm (mm.arr k); go es mm' (.ref nid :: acc)
+        | k => go es mm (k :: acc)
+    let (m1, ks) := go (m.map id) m []
+    let (m2, nid) := m1.alloc ks
+    pure' m2 (.ref nid)
+  | _ => none
+
+def uop_createhashmapfromarray (r : Val) (m : M) : Option OpRes :=
+  match r with
+  | .ref id =>
+    let rec go : List Val → Nat → M → List (Val × Val) → M × List (Val × Val)
+      | [], _, mm, kv => (mm, kv)
+      | it :: rest, i, mm, kv =>
+        match it with
+        | .ref s =>
+          let sub := mm.arr s
+          if sub.length == 2 then
+            let (m1, key) : M × Val := match nth sub 0 with
+              | .ref k => let (m', nid) := copyDeep (mm.heap.length + 1) mm (mm.arr k); (m', .ref nid)
+              | k => (mm, k)
+            let kv' := if kv.any (fun e => valueEq m1.heap e.1 key) then kv.map (fun e => if valueEq m1.heap e.1 key then (e.1, nth sub 1) else e)
+                       else kv ++ [(key, nth sub 1)]
+            go rest (i + 1) m1 kv'
+          else go rest (i + 1) (mm.log Diag.runtime_ExpectedArraySizeMissmatch) kv
+        | _ => go rest (i + 1) (mm.log Diag.runtime_ExpectedArrayTypeMissmatch) kv
+    let (m1, kv) := go (m.arr id) 0 m []
+    let (m2, nid) := m1.allocMap kv
+    pure' m2 (.mapref nid)
+  | _ => none
+
+def uop_pluscontainer (r : Val) (m : M) : Option OpRes :=
+  match r with
+  | .ref id => let (m', nid) := copyDeep (m.heap.length + 1) m (m.arr id); pure' m' (.ref nid)
+  | .mapref id => let (m', nid) := m.allocMap (m.map id); pure' m' (.mapref nid)
+  | _ => none
+
 /-- milliseconds of a duration given in seconds (`duration_cast<milliseconds>` truncates) -/
 def msOf (d : Dec) : Nat := (Dec.trunc (Dec.mul d (Dec.ofNat 1000))).toNat
 
@@ -454,13 +638,16 @@ def unaryOp (n : Name) (r : Val) (m : M) : Option OpRes :=
   else if n == n!"throw" then uop_throw r m
   else if n == n!"!" || n == n!"not" then uop__21 r m
   else if n == n!"-" then uop__2d r m
-  else if n == n!"+" then uop__2b r m
+  else if n == n!"+" then (match r with | .ref _ | .mapref _ => uop_pluscontainer r m | _ => uop__2b r m)
   else if n == n!"case" then uop_case r m
   else if n == n!"default" then uop_default r m
   else if n == n!"with" then uop_with r m
   else if n == n!"comment" then uop_comment r m
   else if n == n!"sleep" then uop_sleep r m
   else if n == n!"str" then uop_str r m
+  else if n == n!"reverse" then uop_reverse r m
+  else if n == n!"keys" then uop_keys r m
+  else if n == n!"createhashmapfromarray" then uop_createhashmapfromarray r m
   else if n == n!"compile" then uop_compile r m
   else if n == n!"scriptdone" || n == n!"isnull" then uop_scriptdone r m
   else if n == n!"terminate" then uop_terminate r m
@@ -484,14 +671,6 @@ def bop__2b (l r : Val) (m : M) : Option OpRes :=
   | .str a, .str b => pure' m (.str (a ++ b))
   | .ref a, .ref b => let (m', id) := m.alloc (m.arr a ++ m.arr b); pure' m' (.ref id)
   | _, _ => none
-
-/-- `value::operator==`: two empty values are equal, otherwise `data::equals` (case sensitive) -/
-def valueEq (h : List (List Val)) (a b : Val) : Bool :=
-  match a, b with
-  | .nil, .nil => true
-  | .nil, _ => false
-  | _, .nil => false
-  | _, _ => valEq h false (h.length + 10000) a b
 
 def bop__2d (l r : Val) (m : M) : Option OpRes :=
   match l, r with
@@ -626,6 +805,28 @@ def bop_select (l r : Val) (m : M) : Option OpRes :=
     let xs := m.arr id
     if xs.isEmpty then let (m', nid) := m.alloc []; pure' m' (.ref nid)
     else pushIter m c [(n!"_x", nth xs 0)] (.select id [] 0 xs.length)
+  | .ref id, .ref p =>
+    -- select [start, length]: a fresh array
+    let vec := m.arr id
+    let ps := m.arr p
+    if ps.length < 1 then pure' (m.log Diag.runtime_ExpectedMinimumArraySizeMissmatch) .nil
+    else
+      let m0 := if ps.length != 2 then m.log Diag.runtime_ExpectedArraySizeMissmatchWeak else m
+      match nth ps 0 with
+      | .num d0 =>
+        let start := roundIdx d0
+        let empty := fun (mm : M) => let (m', nid) := mm.alloc []; pure' m' (.ref nid)
+        if start < 0 then empty ((m0.log Diag.runtime_NegativeIndexWeak).log Diag.runtime_ReturningEmptyArray)
+        else if start > (vec.length : Int) then empty ((m0.log Diag.runtime_IndexOutOfRangeWeak).log Diag.runtime_ReturningEmptyArray)
+        else if ps.length ≥ 2 then
+          match nth ps 1 with
+          | .num d1 =>
+            let len := roundIdx d1
+            if len < 0 then empty ((m0.log Diag.runtime_NegativeIndexWeak).log Diag.runtime_ReturningEmptyArray)
+            else let (m', nid) := m0.alloc ((vec.drop start.toNat).take len.toNat); pure' m' (.ref nid)
+          | _ => pure' (m0.log Diag.runtime_ExpectedArrayTypeMissmatch) .nil
+        else empty m0
+      | _ => pure' (m0.log Diag.runtime_ExpectedArrayTypeMissmatch) .nil
   | .ref id, .num d =>
     let xs := m.arr id
     let idx := roundIdx d
@@ -653,12 +854,8 @@ def bop_findif (l r : Val) (m : M) : Option OpRes :=
 def bop_pushback (l r : Val) (m : M) : Option OpRes :=
   match l with
   | .ref id =>
-    let xs := m.arr id
-    let cyc := match r with
-      | .ref j => j == id || reaches m.heap (m.heap.length + 1) id (m.arr j)
-      | _ => false
-    if cyc then pure' (m.log Diag.runtime_ArrayRecursion) .nil
-    else pure' (m.setArr id (xs ++ [r])) (num xs.length)
+    if wouldCycle m id r then pure' (m.log Diag.runtime_ArrayRecursion) .nil
+    else pure' (m.setArr id (m.arr id ++ [r])) (num (m.arr id).length)
   | _ => none
 
 def bop_catch (l r : Val) (m : M) : Option OpRes :=
@@ -770,6 +967,14 @@ def binaryOp (n : Name) (l r : Val) (m : M) : Option OpRes :=
   else if n == n!"getvariable" then bop_getvariable l r m
   else if n == n!"setvariable" then bop_setvariable l r m
   else if n == n!"spawn" then bop_spawn l r m
+  else if n == n!"set" then bop_set l r m
+  else if n == n!"pushbackunique" then bop_pushbackunique l r m
+  else if n == n!"append" then bop_append l r m
+  else if n == n!"deleteat" then bop_deleteat l r m
+  else if n == n!"resize" then bop_resize l r m
+  else if n == n!"in" then bop_in l r m
+  else if n == n!"find" then bop_find l r m
+  else if n == n!"get" then bop_get l r m
   else none
 
 /-- run an operator result: the stack effects are applied to the context the operator started
